@@ -73,6 +73,25 @@ void harness (void)
     VP_ASSUME (pixman_image_set_clip_region32 (a, &r));
     VP_ASSUME (pixman_image_set_transform (a, NULL));
     VP_ASSERT (pixman_image_unref (a) == TRUE && destroyed[0] == 1, "released");
+#elif SCRIPT == 11	/* a multi-rectangle clip owns heap storage: released exactly once whether the clip is still set, was reset, or was replaced */
+    pixman_image_t *a = mk (0, NULL);
+    pixman_region32_t r; int which; VP_SYM (which);
+    pixman_region32_data_t *d = malloc (sizeof (pixman_region32_data_t) + 2 * sizeof (pixman_box32_t)); VP_ASSUME (d != NULL);
+    pixman_box32_t *bx = (pixman_box32_t *) (d + 1);
+    d->size = 2; d->numRects = 2;
+    bx[0].x1 = 0; bx[0].y1 = 0; bx[0].x2 = 1; bx[0].y2 = 1; bx[1].x1 = 1; bx[1].y1 = 1; bx[1].x2 = 2; bx[1].y2 = 2;
+    r.extents.x1 = 0; r.extents.y1 = 0; r.extents.x2 = 2; r.extents.y2 = 2; r.data = d;
+    VP_ASSUME (pixman_image_set_clip_region32 (a, &r));
+    VP_ASSERT (a->common.have_clip_region && a->common.clip_region.data != d && a->common.clip_region.data->numRects == 2, "the image holds its own copy of the clip rectangles");
+    if (which == 1)
+	VP_ASSUME (pixman_image_set_clip_region32 (a, NULL));		/* reset: storage may stay until destruction, but must go then */
+    else if (which == 2)
+	VP_ASSUME (pixman_image_set_clip_region32 (a, &r));		/* replaced by another multi-rectangle clip */
+    else if (which == 3)
+    {	pixman_region32_t one; pixman_region32_init_rect (&one, 0, 0, 1, 1);
+	VP_ASSUME (pixman_image_set_clip_region32 (a, &one)); }		/* replaced by a single rectangle */
+    pixman_region32_fini (&r);
+    VP_ASSERT (pixman_image_unref (a) == TRUE && destroyed[0] == 1, "released");
 #elif SCRIPT == 7	/* solid and gradient images */
     pixman_color_t c = { 1, 2, 3, 4 };
     pixman_gradient_stop_t st[2] = { { 0, { 0, 0, 0, 0 } }, { 65536, { 1, 1, 1, 1 } } };
